@@ -1,7 +1,7 @@
 #!/usr/bin/env python3
 """Confirm seeded changes produced by independent sub-agents and run the checks against them.
 
-For every /tmp/seed_<PID>/seed_out/change<i>.diff:
+For every /tmp/seed_<PID>/seed_out/change<i>.diff (round 1) or /tmp/seed<N>_<PID>/... with --round=N (ids <PID>-<i+2(N-1)>):
   1. in the scratch worktree /tmp/seed_<PID>: apply, run the pinned test suite (must be 386 passed / 9 failed), run the demo
      (must exit 1), revert, run the demo again (must exit 0);
   2. apply the patch to /repo, run `./check <PID>` (quick) and every other claimed check, record verdicts, undo with
@@ -26,8 +26,15 @@ def sh(cmd, cwd=None, timeout=900):
     return r.returncode, r.stdout + r.stderr
 
 
+ROUND = 1
+
+
+def wt_of(pid):
+    return "/tmp/seed%s_%s" % ("" if ROUND == 1 else str(ROUND), pid)
+
+
 def confirm(pid, i):
-    wt = "/tmp/seed_%s" % pid
+    wt = wt_of(pid)
     out = os.path.join(wt, "seed_out")
     diff = os.path.join(out, "change%d.diff" % i)
     demo = os.path.join(out, "demo%d.py" % i)
@@ -72,17 +79,22 @@ def run_checks(pid, diff):
 
 
 def main():
-    only = sys.argv[1:]
+    global ROUND
+    args = sys.argv[1:]
+    if args and args[0].startswith("--round="):
+        ROUND = int(args[0].split("=")[1])
+        args = args[1:]
+    only = args
     summary = []
     for pid in CLAIMED:
         if only and pid not in only:
             continue
-        out = "/tmp/seed_%s/seed_out" % pid
+        out = wt_of(pid) + "/seed_out"
         for i in (1, 2):
             diff = os.path.join(out, "change%d.diff" % i)
             if not os.path.exists(diff):
                 continue
-            sid = "%s-%d" % (pid, i)
+            sid = "%s-%d" % (pid, i + 2 * (ROUND - 1))
             conf = confirm(pid, i)
             checks = run_checks(pid, diff) if conf.get("confirmed") else {}
             caught_own = pid in checks and checks[pid].get("exit") == 1
@@ -95,7 +107,7 @@ def main():
                 note = os.path.join(out, "note%d.txt" % i)
                 if os.path.exists(note):
                     shutil.copy(note, os.path.join(d, "note.txt"))
-                meta = {"id": sid, "property": pid, "source": "independent sub-agent given only the property text and a scratch worktree",
+                meta = {"id": sid, "property": pid, "round": ROUND, "source": "independent sub-agent given only the property text and a scratch worktree",
                         "needs_to_manifest": open(note).read()[:1500] if os.path.exists(note) else "",
                         "confirmation": conf,
                         "ran": ["git apply patch.diff (scratch worktree)", "pinned pytest command", "/venv/bin/python demo.py <tree> on both trees",
@@ -105,8 +117,23 @@ def main():
             summary.append((sid, conf.get("confirmed"), caught_own, caught_any, conf.get("error") or checks.get("error")))
             print(sid, "confirmed=%s" % conf.get("confirmed"), "own=%s" % caught_own, "any=%s" % caught_any,
                   conf.get("error") or checks.get("error") or "", flush=True)
-    json.dump([{"id": s[0], "confirmed": s[1], "caught_by_own": s[2], "caught_by": s[3]} for s in summary],
-              open(os.path.join(VERIF, "seeded", "SUMMARY.json"), "w"), indent=1)
+    rebuild_summary()
 
 
-main()
+def rebuild_summary():
+    base = os.path.join(VERIF, "seeded")
+    rows = []
+    for d in sorted(os.listdir(base)):
+        mp = os.path.join(base, d, "meta.json")
+        if os.path.exists(mp):
+            m = json.load(open(mp))
+            rows.append({"id": m["id"], "round": m.get("round", 1), "confirmed": m["confirmation"].get("confirmed"),
+                         "caught_by_own": m.get("caught_by_own_property_check"), "caught_by": m.get("caught_by")})
+    json.dump(rows, open(os.path.join(base, "SUMMARY.json"), "w"), indent=1)
+
+
+if __name__ == "__main__":
+    if sys.argv[1:] == ["--summary"]:
+        rebuild_summary()
+    else:
+        main()
